@@ -17,7 +17,6 @@ import (
 	"testing"
 	"time"
 
-	"github.com/dapr/kit/ttlcache"
 
 	"verif/harness/internal/mon"
 )
@@ -200,7 +199,7 @@ var dumpBuf = make([]byte, 1<<19)
 // snapshots all goroutines (stop-the-world) into buf and classifies the
 // cleaner. Whatever the snapshot shows was true at a moment after this Stop
 // call had returned, so "looping" is a sound witness against this call.
-func stopAndDump(c *ttlcache.Cache[string], buf []byte) (state, frames string) {
+func stopAndDump(c interface{ Stop() }, buf []byte) (state, frames string) {
 	c.Stop()
 	n := runtime.Stack(buf, true)
 	return cleanerState(string(buf[:n]))
@@ -215,7 +214,7 @@ func stopAndDump(c *ttlcache.Cache[string], buf []byte) (state, frames string) {
 // dumps into a preallocated buffer, so nothing else is scheduled between the
 // return of Stop and the snapshot. This only sharpens the observation; the
 // verdict rule is unchanged (a cleaner seen inside its loop after Stop returned).
-func stopCheck(c *ttlcache.Cache[string], ctx string, fail func(sig, msg string)) {
+func stopCheck(c interface{ Stop() }, ctx string, fail func(sig, msg string)) {
 	prev := runtime.GOMAXPROCS(1)
 	defer runtime.GOMAXPROCS(prev)
 	type out struct{ state, frames string }
